@@ -74,7 +74,8 @@ class Fam:
 
 
 def _name(tok, n):
-    return f"tk{tok}_{n}"
+    # every third name is not ASCII (identifiers and string values in analysed programs need not be)
+    return f"tk{tok}_{n}" if n % 3 else f"tk{tok}_{n}_\u00e4\u540d"
 
 
 # ------------------------------------------------------------------------------------------------ unit-level tables
